@@ -10,7 +10,7 @@ import time
 import vlib
 from vlib import ToolError, log
 
-NSEEDS = 24
+NSEEDS = 26
 
 
 def generate(tag, maxsteps, seeds, simulate=None):
